@@ -367,7 +367,7 @@ func init() {
 				l.Add("fixed", f, int64(100+i))
 			}
 			rng := l.Rng()
-			n := l.N(500, 8000)
+			n := l.N(500, 40000)
 			chunkModes := []string{"none", "one", "two", "five", "every", "exact"}
 			for i := 0; i < n; i++ {
 				p := c19Params{NCols: 1 + rng.Intn(5), Style: int(gen.CellTiny)}
